@@ -229,7 +229,7 @@ steps! {
     c17_q_inval_tuple_vars_vs_vars: 3, (4, 4), 3, (4, 4);
     c17_q_inval_tuple_var_vs_ground: 3, (4, 0), 3, (0, 0);
     c17_q_inval_adt_scalar_ph_vs_vars: 0, (1, 2), 0, (4, 4);
-    c17_t_inval_adt_ph_vs_ph: 0, (2, 2), 0, (2, 4);
+    c17_q_inval_adt_ph_vs_ph: 0, (2, 2), 0, (2, 4);
     c17_t_inval_adt_scalar_vs_scalar: 0, (1, 1), 0, (1, 4);
     c17_q_inval_fndef_ground_vs_vars: 9, (0, 0), 9, (4, 4);
     c17_t_inval_assoc_ground_vs_vars: 1, (0, 0), 1, (4, 4);
@@ -259,4 +259,4 @@ sharness!(c17_q_inval_both_verdicts, 8, { both_verdicts() });
 sharness!(c17_q_inval_leaf_ground_vs_var, 8, { step_leaf(0, 4) });
 sharness!(c17_q_inval_leaf_var_vs_ground, 8, { step_leaf(4, 0) });
 sharness!(c17_t_inval_leaf_var_vs_var, 8, { step_leaf(4, 4) });
-sharness!(c17_t_inval_leaf_ph_vs_ph, 8, { step_leaf(2, 2) });
+sharness!(c17_q_inval_leaf_ph_vs_ph, 8, { step_leaf(2, 2) });
